@@ -38,6 +38,7 @@ class State(object):
         self.slots = []      # dicts: real, model, kind, scale
         self.compiled = False
         self.adds = []       # (different_bps, tail_class)
+        self.blind = False   # True: nothing looks at any object until ["blind", False]
 
 
 def new_state():
@@ -125,11 +126,24 @@ def _check_all(ctx, state, what):
         _check_slot(ctx, k, slot, what)
 
 
+def _check_all_unless_blind(ctx, state, what):
+    if not state.blind:
+        _check_all(ctx, state, what)
+
+
 def apply_op(state, op, ctx):
     name = op[0]
     S = state.slots
     if name == "backend":
         state.compiled = bool(op[1])
+        return
+    if name == "blind":
+        # a stretch of operations during which the caller does not look at any object
+        # (no attribute read, no evaluation): everything is judged when it ends
+        state.blind = bool(op[1])
+        if not state.blind and S:
+            ctx.set_backend(state.compiled)
+            _check_all(ctx, state, "after a stretch of unobserved operations")
         return
     ctx.set_backend(state.compiled)
     if name == "new":
@@ -143,7 +157,7 @@ def apply_op(state, op, ctx):
         cands = [k for k in range(len(S)) if S[k]["kind"] == S[d]["kind"]]
         s = cands[op[2] % len(cands)]
         dst, src = S[d], S[s]
-        before = _snapshot(src) if s != d else None
+        before = _snapshot(src) if (s != d and not state.blind) else None
         xa, xb = ps.fl(dst["model"].x), ps.fl(src["model"].x)
         state.adds.append((xa[1:-1] != xb[1:-1], _tail_class(xa, xb)))
         new_model = dst["model"].add(src["model"])
@@ -153,21 +167,21 @@ def apply_op(state, op, ctx):
         if before is not None:
             ctx.check(_snapshot(src) == before, "operand_modified",
                       lambda: "add(%d <- %d) changed the added operand" % (d, s))
-        _check_all(ctx, state, "after add(%d <- %d)" % (d, s))
+        _check_all_unless_blind(ctx, state, "after add(%d <- %d)" % (d, s))
     elif name == "mul":
         d = op[1] % len(S)
         c = op[2]
         ctx.call("mul_scalar", S[d]["real"].mul_scalar, c)
         S[d]["model"] = S[d]["model"].scale(Fr(c))
         S[d]["scale"] = S[d]["scale"] * max(1.0, abs(c))
-        _check_all(ctx, state, "after mul_scalar(%d, %r)" % (d, c))
+        _check_all_unless_blind(ctx, state, "after mul_scalar(%d, %r)" % (d, c))
     elif name == "copy":
         s = op[1] % len(S)
         r = ctx.call("copy", S[s]["real"].copy)
         S.append(dict(real=r, model=S[s]["model"].copy(), kind=S[s]["kind"],
                       scale=S[s]["scale"]))
         ctx.check(r is not S[s]["real"], "copy_is_same_object", "copy() returned self")
-        _check_all(ctx, state, "after copy(%d)" % s)
+        _check_all_unless_blind(ctx, state, "after copy(%d)" % s)
     elif name == "avg":
         first = op[1][0] % len(S)
         kind = S[first]["kind"]
@@ -458,3 +472,15 @@ def run_case(case, ctx):
     apply_op(st_, ["mul", 0, case["c"]], ctx)
     apply_op(st_, ["probe", 0, [[0.0, 1.0], [0.25, 0.5]], [0.25]], ctx)
     apply_op(st_, ["avg", [0, 1, 2]], ctx)
+    # the same kind of sequence without anybody looking in between: fresh f and g,
+    # f += g, then the OPERAND is scaled, a copy of f is taken and f is scaled - and only
+    # then everything is inspected
+    n0 = len(st_.slots)
+    apply_op(st_, ["new", case["f"]], ctx)       # n0
+    apply_op(st_, ["new", case["g"]], ctx)       # n0+1
+    apply_op(st_, ["blind", True], ctx)
+    apply_op(st_, ["add", n0, n0 + 1], ctx)
+    apply_op(st_, ["mul", n0 + 1, case["c"]], ctx)
+    apply_op(st_, ["copy", n0], ctx)             # n0+2
+    apply_op(st_, ["mul", n0, case["c"]], ctx)
+    apply_op(st_, ["blind", False], ctx)
